@@ -36,11 +36,11 @@ for _pid, _text, _ref in [
  ("C01", "every accepted unit must come out of the advertised segments/parts once, in order, byte-identical, with container time = written time + constant offset, from the start point on (pending-unit queue per track in MuxMonitor.tla, consumed by the units decoded from every newly listed fragment)", "7 C01"),
  ("C02", "expected segment boundaries are computed from the written units by the rule of the statement (random access + min duration / 100 writes / pending parameter change) and every listed segment must begin with exactly that unit; MPEG-TS segments start with PAT/PMT", "7 C02"),
  ("C03", "EXTINF / part durations against the media time between boundary units, PROGRAM-DATE-TIME against the wall clock written with the boundary unit, TARGETDURATION / PART-TARGET / PART-HOLD-BACK / CAN-SKIP-UNTIL relations, target duration monotone", "7 C03"),
- ("C04", "pairwise evolution of successive playlists of each stream (media sequence monotone, same MSN same entry, tail append / head removal, at most SegmentCount, URI number = MSN, part ids consecutive over the whole history, parts only under the last two segments, preload hint = next part) and agreement between streams", "7 C04"),
+ ("C04", "window laws for histories of any length as an inductive invariant of Window.tla (Apalache); pairwise evolution of successive playlists of each stream (media sequence monotone, same MSN same entry, tail append / head removal, at most SegmentCount, URI number = MSN, part ids consecutive over the whole history, parts only under the last two segments, preload hint = next part) and agreement between streams", "7 C04"),
  ("C05", "every URI ever listed is probed after every Write: listed ones resolve with the proper type and identical bytes, segment = concatenation of parts, fragment sequence number = part id, URIs outside the window never return media", "7 C05"),
  ("C16", "the multivariant playlist after every Write against the track list and the current parameter generation: one variant whose URI is the leading stream, query preserved, CODECS = one RFC 6381 string per distinct track codec of the current generation, RESOLUTION / FRAME-RATE of the current generation, one AUDIO rendition per non-leading audio stream (name, language, URI unless leading), exactly one DEFAULT (marked, else first), BANDWIDTH >= AVERAGE-BANDWIDTH > 0 and = peak / mean bit rate for single-stream muxers", "7 C16"),
  ("C19", "constant-rate LL streams over the frame-rate x PartMinDuration x SegmentMinDuration x key-frame-spacing grid (video-led with audio of odd rates starting late, audio-only AAC / Opus): all non-final parts have one duration D, 0.85 PART-TARGET <= D <= PART-TARGET of the same playlist, D >= PartMinDuration, D < 2 max(PartMin, sd) + sd, PART-TARGET stable", "7 C19"),
- ("C18", "at most SegmentCount listed, directory holds only listed + open segment files, expired segment/part URIs stop resolving, payload per published segment <= SegmentMaxSize over long histories (hundreds/thousands of rotations)", "7 C18"),
+ ("C18", "at most SegmentCount listed for histories of any length (inductive invariant of Window.tla, Apalache); on the real muxer: at most SegmentCount listed, directory holds only listed + open segment files, expired segment/part URIs stop resolving, payload per published segment <= SegmentMaxSize over long histories (hundreds/thousands of rotations)", "7 C18"),
 ]:
     CLAIMED[_pid] = dict(cat="model_checking", text=_text, note=MUX_NOTE, technique=MUX_TECH, ref=_ref)
 
@@ -97,7 +97,12 @@ def main():
                   "baseline_off_cmd": "bin/baseline_off", "source_commits": hooks, "add_only": True},
         "engines": [{"name": "tlc", "path": "/usr/local/bin/tlc", "serves_properties": sorted(CLAIMED),
                      "kind_free_text": "TLA+ specifications in /verif/spec checked by TLC: exhaustive design checks, "
-                                       "generation of scripts/schedules, validation of traces recorded from the real code"}],
+                                       "generation of scripts/schedules, validation of traces recorded from the real code"},
+                    {"name": "apalache", "path": "/opt/veriftools/apalache/bin/apalache-mc", "serves_properties": ["C04", "C18"],
+                     "kind_free_text": "inductive invariant of spec/Window.tla (window laws for histories of any length); "
+                                       "auxiliary to the TLC checks of the same properties"},
+                    {"name": "go race detector", "path": "go build -race", "serves_properties": ["C08"],
+                     "kind_free_text": "memory-level data races on the schedules chosen by the TLA+ model (DESIGN section 9)"}],
         "checks": [], "not_applicable": [],
         "notes": "See DESIGN.md. bin/check <id> [--tier quick|thorough] [--replay file]. exit 0 held / 1 VIOLATION / 2 inconclusive.",
     }
